@@ -25,6 +25,7 @@ Clauses of the property and where they are stated:
   * order of the enumeration, truncation = prefix          lattice_lex_sorted, truncation_keeps_least
   * the zero vector                                        zero_mem_lattice_iff, zero_point_gives_zero_lambda,
                                                            zero_lambda_mem_grid_iff, forced_grid_excludes_zero
+  * force_L1_norm: L1 norm exactly grid_limit               forced_grid_l1_eq_limit
   * grid_offset                                            grid_offset_distinct
 -/
 import FairModel.Lemmas.GridMore
@@ -446,6 +447,29 @@ theorem forced_grid_excludes_zero (na : List Bool) (gs : Nat) (limit : Rat) (hli
   have h1 := (zero_mem_lattice_iff na true n).mp (List.mem_of_mem_take hm) rfl hna
   have := (grid_length na true gs limit rows n g hg).2.2
   omega
+
+/-- On a unit basis whose columns sum to at most 1 (both hypotheses are evaluated by the driver on the bases of
+    every fitted moment) the L1 norm of EVERY grid vector is exactly `l1(v)·grid_limit/n_units` of its lattice
+    point; with `force_L1_norm` (objective in the span: BoundedGroupLoss) it is EXACTLY `grid_limit`, as the
+    docstring of `_GridGenerator` promises. -/
+theorem forced_grid_l1_eq_limit (na : List Bool) (gs : Nat) (limit : Rat) (hlim : 0 < limit)
+    (rows : List (List Rat × List Rat)) (n : Nat) (g : List (List Rat)) (hna : na ≠ [])
+    (hu : unitBasis na rows = true) (hb : basisOK na.length rows = true)
+    (hg : grid na true gs limit rows = .ok (n, g)) :
+    ∀ lam ∈ g, (lam.map (fun x => |x|)).sum = limit := by
+  intro lam hl
+  have hnn := grid_nonneg na true gs limit rows n g hb hg lam hl
+  obtain ⟨hn, v, hv, rfl⟩ := grid_mem na true gs limit rows n g hg lam hl
+  have habs : (lambdaOf rows (scaleCoefs limit n v)).map (fun x => |x|) = lambdaOf rows (scaleCoefs limit n v) := by
+    conv_rhs => rw [← List.map_id (lambdaOf rows (scaleCoefs limit n v))]
+    apply List.map_congr_left
+    intro x hx; simp [abs_of_nonneg (hnn x hx)]
+  rw [habs]
+  have hnpos : (0 : Rat) < n := by exact_mod_cast hn
+  have hs : 0 < limit / (n : Rat) := div_pos hlim hnpos
+  have hsign := ((mem_lattice na true n v).mp hv).1
+  rw [lambdaOf_sum_eq hu hb (limit / n) hs n limit rfl v hsign, (lattice_l1 na true n v hv).2.2 rfl hna]
+  field_simp
 
 /-! ### grid_offset -/
 
